@@ -176,7 +176,7 @@ class Ctx(object):
         if pure_hyps is not None:
             # algebraic identity at a fresh index: decided on its own, array elements abstracted
             from .backends import prove_pure
-            r0, m0 = prove_pure(pure_hyps, goal, self.timeout_ms * 2)
+            r0, m0 = prove_pure(list(pure_hyps) + [f for f in self.pc if not _has_quantifier(f)], goal, self.timeout_ms * 2)
             dt = time.time() - t0
             self.solver_time += dt
             self.solver_calls += 1
